@@ -1,0 +1,13 @@
+//go:build verif
+
+package consensus
+
+// Contracts checked by /verif (gvc). This file contains comments only and is compiled only with -tags verif.
+
+// elected[m]: the momentum object m is signed by the pillar elected for the time slot of its timestamp (abstract here;
+// the election itself is specified on the implementation, see election contracts)
+//@ model Consensus elected map[int]bool
+
+//@ func Consensus.VerifyMomentumProducer(self, momentum) -> (ok, err)
+//@   ensures err == nil ==> (ok <==> self.elected[int(momentum)])
+//@   modifies nothing
